@@ -432,10 +432,15 @@ pub fn fnew_op(a: &[&str]) -> Option<String> {
     let pn = Placed::new(&needle, NEEDLE_BASE);
     crate::vreset();
     verif::register_region(pn.ptr(), needle.len());
+    let t0 = std::time::Instant::now();
     let f = build(a[1], a[2], pn.slice())?;
+    let ns = t0.elapsed().as_nanos() as u64;
     let rep = verif::take();
     let (loads, _) = fmt_loads(&rep.loads, 1);
     let steps: u64 = rep.ticks.iter().sum();
+    let ns = crate::robust_ns(ns, needle.len(), || {
+        let _ = build(a[1], a[2], pn.slice());
+    });
     // probe search to learn the strategy (recorded by the hook at search time)
     let probe = vec![0u8; std::cmp::max(needle.len() + 64, 128)];
     crate::vreset();
@@ -457,7 +462,7 @@ pub fn fnew_op(a: &[&str]) -> Option<String> {
     if name == "two_way_with_prefilter" {
         name = format!("{}:{}", name, if pre.is_empty() { "?" } else { &pre });
     }
-    Some(format!("ok {} steps={} loads={}", name, steps, loads))
+    Some(format!("ok {} steps={} loads={} ns={}", name, steps, loads, ns))
 }
 
 /// `rfind <cfg> <needle> <hbase> <hay>`
@@ -564,15 +569,18 @@ pub fn finditer_op(a: &[&str]) -> Option<String> {
     let mut out = Vec::new();
     let mut oracle = Vec::new();
     let mut search_allocs = ba;
+    let mut total_ns = 0u64;
     let mut it: memchr::memmem::FindIter<'_, '_> = f.find_iter(ph.slice());
     let mut owned: Option<memchr::memmem::FindIter<'_, 'static>> = None;
     for ch in ops.chars() {
         match ch {
             'n' => {
+                let t0 = std::time::Instant::now();
                 let (r, al) = alloc_probe::measure(|| match owned.as_mut() {
                     Some(o) => o.next(),
                     None => it.next(),
                 });
+                total_ns += t0.elapsed().as_nanos() as u64;
                 search_allocs += al;
                 out.push(fmt_opt(r));
                 oracle.push(fmt_opt(expect.get(k).copied()));
@@ -605,7 +613,7 @@ pub fn finditer_op(a: &[&str]) -> Option<String> {
         }
     }
     let j = |v: &Vec<String>| if v.is_empty() { "-".to_string() } else { v.join(",") };
-    Some(tail(j(&out), j(&oracle), search_allocs))
+    Some(format!("{} ns={}", tail(j(&out), j(&oracle), search_allocs), total_ns))
 }
 
 /// `rfinditer <cfg> <needle> <hbase> <hay> <ops>` (ops over n k o)
@@ -629,15 +637,18 @@ pub fn rfinditer_op(a: &[&str]) -> Option<String> {
     let mut out = Vec::new();
     let mut oracle = Vec::new();
     let mut search_allocs = ba;
+    let mut total_ns = 0u64;
     let mut it = f.rfind_iter(ph.slice());
     let mut owned: Option<memchr::memmem::FindRevIter<'_, 'static>> = None;
     for ch in ops.chars() {
         match ch {
             'n' => {
+                let t0 = std::time::Instant::now();
                 let (r, al) = alloc_probe::measure(|| match owned.as_mut() {
                     Some(o) => o.next(),
                     None => it.next(),
                 });
+                total_ns += t0.elapsed().as_nanos() as u64;
                 search_allocs += al;
                 out.push(fmt_opt(r));
                 oracle.push(fmt_opt(expect.get(k).copied()));
@@ -658,7 +669,7 @@ pub fn rfinditer_op(a: &[&str]) -> Option<String> {
         }
     }
     let j = |v: &Vec<String>| if v.is_empty() { "-".to_string() } else { v.join(",") };
-    Some(tail(j(&out), j(&oracle), search_allocs))
+    Some(format!("{} ns={}", tail(j(&out), j(&oracle), search_allocs), total_ns))
 }
 
 /// `finderops <cfg> <pf> <needle> <ops>`; ops `,`-separated: `f:<hay>` `r` `o` `k` `n`.
